@@ -20,8 +20,33 @@ C = {
  "C11": ("model_checking", "Chained calls (results passed on exactly as returned, either side, third operand independent or re-used, depth 2 and 3): the final region must equal the Boolean expression over the base operands on every atom; every intermediate value must be a valid polygon set and every call must return.", "6 C11"),
  "C12": ("model_checking", "Operand bit digests before/after every call must agree; repeated calls (after unrelated calls, from 8 concurrent threads) must return identical values and identical raw bits. Histories are validated by TLC; the schedule quantifier is sampled (the specification has no shared state to enumerate schedules over).", "6 C12"),
 }
+STG_TECH = "TLA+ trace validation of the public stages: recorded outputs of fill_queue / subdivide / the two comparators are judged by TLC against the Stages.tla contracts (exact integer geometry + parity oracle)"
+STG_NOTE = "Assumes operands valid by construction; robust domain = lattice inputs with integral intersection points (|coordinate| <= 2^12); stages observed through the public API only."
+D = {
+ "C13": ("model_checking", "FillQueueOK (one linked L/R pair per non-degenerate edge, left first, exact boxes) and SubdivisionOK (mutual links, left first, non-zero length, no crossing/touching except common end points or full coincidence of different operands, every input edge covered exactly by its chain - compared as bags of atoms, computed points exact/within tolerance) evaluated by TLC on recorded stage outputs; union/xor complete, intersection/difference on the processed prefix.", "6 C13", STG_TECH, STG_NOTE),
+ "C14": ("model_checking", "ClassificationOK: for every processed sub-segment that is an atom of the input arrangement, in_out / other_in_out / in_result / transition must equal the oracle's membership of its two sides (vertical: below = right side); coincident twins by the pair clause; prev_in_result must be a non-vertical result edge below (stale inherited pointers are the recorded finding N3).", "6 C14", STG_TECH, STG_NOTE),
+ "C15": ("model_checking", "EventOrderOK: every recorded comparison (all pairs for small runs, neighbours + sample otherwise, before and after subdivision) is never Equal, antisymmetric, consistent with one linear order (hence transitive) and equal to the order of the statement (x, y, right before left, lower segment first, subject first). SegmentOrderOK: Equal only for the identical segment, antisymmetric, and agreement with exact vertical separation for non-crossing pairs (stacked collinear verticals of different operands: recorded finding N4).", "6 C15", STG_TECH, STG_NOTE),
+ "C16": ("model_checking", "TLC enumerates every ordered pair of lattice segments (3x3, 4x4; 5x5 in thorough) with operand/flag combinations, each scaled by its determinant; every tuple is replayed through the real possible_intersection (f64 and f32) and the outcome judged by PossibleIntersectionOK: code, untouched on none/end-point contact, split exactly the segments containing the point in their interior at one bit-identical point that equals the exact intersection and lies in both boxes, overlap cuts and edge types.", "6 C16",
+         "TLC-enumerated argument space (MC_PI.tla) replayed through the real function, outcomes judged by TLC (TracePI.tla / Stages.tla)", "Coordinates after scaling <= 2^7: the statement's 2^25 range and arbitrary floats are outside what TLC decides (DESIGN section 8); events built with the public constructor/setters."),
+ "C17": ("model_checking", "TLC explores every tree reachable over keys 1..5 (quick) / 1..6 (thorough), values {1,2}, all operations incl. absent-key lookups and consuming iteration in both directions, checking refinement of SortedMap at every transition; EVERY transition of that state graph is replayed through the real SplayTree and SplaySet (return value, paired value, len, Debug shape); seeded random histories (up to 2000 ops, 20 keys, extend, hold/check of handed-out references, mixed-direction iteration with early drop) are validated by TLC against the contract and shape for shape against the transcription.", "6 C17",
+         "exhaustive TLC model (MC_Splay.tla: SplayTree.tla refines SortedMap.tla) + replay of every model transition through the real tree + TLC trace validation of recorded histories (TraceSplay.tla)", "Keys are integers with the natural order; a shape-only difference is reported as SPEC-DRIFT, not as a violation."),
+ "C18": ("exploration", "Scenario events (insertion order x action on 2*10^5 / 3*10^6 keys; Boolean operations on combs, grids, staircases up to 10^6 edges; 8 MiB and 2 MiB stacks) are recorded from child processes with a painted stack and judged by TLC (TraceStack.tla): exit ok and high-water mark <= 64 KiB independent of n. The explicit-depth model (MC_Splay: C18_StackBounded) states the design requirement for every reachable tree.", "6 C18",
+         "child-process scenarios with painted-stack high-water mark, judged by TLC against TraceStack.tla; explicit stack-depth invariant in MC_Splay.tla", "The large-n quantifier is sampled by structured scenarios; the model's exhaustive exploration stops at 6 keys."),
+}
 def main():
     checks = []
+    for pid, (lvl, text, ref, tech, note) in sorted(D.items()):
+        checks.append({
+            "property_id": pid,
+            "quick_cmd": "bin/check %s quick" % pid,
+            "thorough_cmd": "bin/check %s thorough" % pid,
+            "evidence_file": "evidence/%s.json" % pid,
+            "replay_cmd_template": "bin/check %s --replay {path}" % pid,
+            "engine": "tlc-trace-validation",
+            "level_claimed": {"category": lvl, "text": text, "design_ref": "DESIGN.md section " + ref},
+            "level_note": note,
+            "technique": tech,
+        })
     for pid, (lvl, text, ref) in sorted(C.items()):
         checks.append({
             "property_id": pid,
@@ -34,6 +59,7 @@ def main():
             "level_note": OPS_NOTE,
             "technique": OPS_TECH,
         })
+    checks.sort(key=lambda c: c["property_id"])
     claimed = {c["property_id"] for c in checks}
     allp = [json.loads(l)["id"] for l in open(os.path.join(ROOT, "properties.jsonl"))]
     na = [{"property_id": p, "reason": "check under construction in this round (specification and harness not yet wired); see DESIGN.md section 6"} for p in allp if p not in claimed]
@@ -48,8 +74,8 @@ def main():
             "add_only": True,
         },
         "engines": [
-            {"name": "tlc-trace-validation", "path": "spec/TraceOps.tla", "serves_properties": sorted(C.keys()),
-             "kind_free_text": "TLC 1.8.0 validating ndjson traces of the real library (harness/) against the Layer P specification (spec/Geometry.tla, Oracle.tla, BoolOps.tla)"},
+            {"name": "tlc-trace-validation", "path": "spec/TraceOps.tla", "serves_properties": sorted(list(C.keys()) + list(D.keys())),
+             "kind_free_text": "TLC 1.8.0 validating ndjson traces of the real library (harness/) against the Layer P specification (spec/Geometry.tla, Oracle.tla, BoolOps.tla, Stages.tla, SortedMap.tla) and exhaustive Layer M models (MC_Splay.tla, MC_PI.tla)"},
         ],
         "checks": checks,
         "not_applicable": na,
